@@ -34,6 +34,23 @@ on-discover / on-connect callback is only made after the driver really
 completed a discovery / activation since the previous one (`act` entries of
 the time line; also applied in the `connect` leg).
 
+legs `tagapp_enum`, `tagapp`: applications that USE the tag while connect()
+holds it.  The on-connect callback (or, when it returns a false value, the
+code after connect() returned the tag, followed by a second connect() on the
+same frontend) runs a short program of documented tag operations (ndef read
+/ write, has_changed, dump(), format, is_present, raw reads and writes inside
+and behind the memory) on a Type 1 / 2 / 3 / 4A tag, while the field follows a
+plan counted in commands and polls from the start of the program: the tag
+leaves (for good or for some events) or the driver reports timeout /
+transmission / protocol errors, starting at an absolute position, right
+after a command the tag refused (NAK) or at a re-selection poll.  Then the
+normal presence loop runs.  Exceptions raised by the tag operations are caught
+by the program itself (TagCommandError is the documented one, anything else
+is only recorded - C16 judges those); the oracle is the one of the connect leg
+applied to every connect() call.  tagapp_enum walks every event position of
+every one-step program on nine fixed tags, tagapp generates tags, options,
+programs and plans.
+
 leg `sense`: target lists mixing supported, unsupported (bit rate/technology
 the driver rejects) and invalid targets with zero/one/several tags present:
 several targets never raise, the first present target in argument order is
@@ -41,14 +58,22 @@ returned, the last driver call after an unsuccessful sense is mute(), and
 exchange() after an unsuccessful sense/listen returns None without touching
 the driver; the exchange direction follows the last found target.
 """
+import contextlib
+import io
+
 from hypothesis import strategies as st
 
 import nfc
 import nfc.clf
 import nfc.llcp
 import nfc.tag
+import nfc.tag.tt1
+import nfc.tag.tt2
+import nfc.tag.tt3
+import nfc.tag.tt4
 
-from vlib import ref_tlv, simdev, simtags, vsched
+from props import tagcommon as tc
+from vlib import ref_tlv, simdev, simtags, tagdev, vsched
 from vlib.engine import Leg, Violation, unexpected
 
 PROPERTY = "C18"
@@ -68,6 +93,16 @@ ASSUMPTIONS = [
     "rounds leg: counterparts come and go at scripted virtual times; every "
     "driver call of the device under test takes 1 ms of virtual time; a tag "
     "that left and came back needs a new activation",
+    "tagapp legs: tag simulators of vlib (simtags, isodep_card) built through "
+    "props/tagcommon.build; one event = one command sent to the tag or one "
+    "poll of its technology, counted from the start of the application "
+    "program; a tag out of the field answers nothing and loses power (a Type "
+    "A tag must be selected again, a Type F tag answers at once when it is "
+    "back); an injected communication error hits commands and polls alike, "
+    "sense() reports it as 'no target' (documented); the activation before "
+    "on-connect is not faulted (the connect leg does that with tag_life); "
+    "exceptions of tag operations other than TagCommandError inside the "
+    "application program are recorded, not judged (C16)",
 ]
 
 
@@ -1025,6 +1060,575 @@ def run_sense(case, ctx):
         vsched.activate(None)
 
 
+# ----------------------------------------------------------------- tagapps
+# Applications that USE the tag while connect() holds it: the on-connect
+# callback (or, when on-connect returns a false value, the code after
+# connect() handed the tag back) runs a short generated program of documented
+# tag operations, while the field misbehaves at a generated command position.
+# connect() itself (presence loop, on-release, return value) is judged.
+APP_FAM = {"t2t": "t2t", "t2t-ul": "t2t", "t1t": "t1t", "t1t-dyn": "t1t",
+           "t3t": "t3t", "t4a": "t4t", "t4a+dep": "t4t"}
+APP_COMMON = ["ndef", "changed", "write", "write-empty", "dump", "present",
+              "format", "format-wipe", "read:in", "read:out", "write:in",
+              "write:out"]
+APP_OPS = {
+    "t2t": APP_COMMON + ["read:far", "read:out", "dump"],
+    "t1t": APP_COMMON + ["read:all", "read:id"],
+    "t3t": APP_COMMON + ["poll", "read:out"],
+    "t4t": APP_COMMON + ["read:out"],
+}
+APP_FIXED = [
+    {"kind": "t2t", "size": 6, "extra": 0, "nulls": 0, "cut": 0, "msg": 21},
+    {"kind": "t2t", "size": 12, "extra": 8, "nulls": 1, "cut": 16, "msg": 40},
+    {"kind": "t2t-ul", "size": 6, "extra": 0, "nulls": 0, "cut": 0,
+     "msg": 21},
+    {"kind": "t1t", "hr1": 0x00, "msg": 21},
+    {"kind": "t1t", "hr1": 0x48, "msg": 21},
+    {"kind": "t1t-dyn", "hr1": 0x00, "msg": 40},
+    {"kind": "t3t", "nmaxb": 4, "extra": 0, "msg": 21},
+    {"kind": "t4a", "fsize": 64, "fsci": 8, "chunk": None, "msg": 21},
+    {"kind": "t4a+dep", "fsize": 96, "fsci": 2, "chunk": 11, "msg": 40},
+]
+
+
+def app_quiet(fn, *a, **kw):
+    with contextlib.redirect_stdout(io.StringIO()):
+        return fn(*a, **kw)
+
+
+def app_sim(spec):
+    """tag spec -> (simulator, geometry for the raw operations)"""
+    kind = spec["kind"]
+    if kind in ("t2t", "t2t-ul"):
+        b = tc.build({"kind": "t2t", "size": spec["size"],
+                      "extra": spec["extra"], "ctrl": [],
+                      "nulls": spec["nulls"], "filler": 0},
+                     ("abs", spec["msg"]), 5)
+        mem = b.tag.mem
+        if spec["cut"] and len(mem) - spec["cut"] >= 64:
+            del mem[len(mem) - spec["cut"]:]   # less memory than declared
+        if kind == "t2t-ul":
+            # an NXP UID: activated as Mifare Ultralight after vendor probing
+            mem[0] = 0x04
+            b.tag.uid = bytes(mem[0:3] + mem[4:8])
+        return b.tag, {"out": (len(mem) + 3) // 4}
+    if kind in ("t1t", "t1t-dyn"):
+        b = tc.build({"kind": "t1t", "size": 14 if kind == "t1t" else 31,
+                      "extra": 0, "hr1": spec["hr1"], "ctrl": [], "nulls": 0,
+                      "filler": 0}, ("abs", spec["msg"]), 5)
+        return b.tag, {"dyn": kind == "t1t-dyn"}
+    if kind == "t3t":
+        b = tc.build({"kind": "t3t", "ver": 0x10, "nbr": 3, "nbw": 2,
+                      "nmaxb": spec["nmaxb"], "phys_extra": spec["extra"],
+                      "nbr_extra": 1, "nbw_extra": 1, "filler": 0},
+                     ("abs", spec["msg"]), 5)
+        return b.tag, {"out": spec["nmaxb"] + spec["extra"] + 1}
+    b = tc.build({"kind": "t4t", "tech": "A", "ver": 0x20, "mle": 40,
+                  "mlc": 30, "fsize": spec["fsize"], "phys_extra": 8,
+                  "fsci": spec["fsci"], "fwi": 4, "chunk": spec["chunk"],
+                  "wtx": 0, "filler": 0}, ("abs", spec["msg"]), 5)
+    if kind == "t4a+dep":
+        plain = b.tag.target
+
+        def target(poll):
+            t = plain(poll)
+            if t is not None:
+                t.sel_res = bytearray(b"\x60")     # also announces NFC-DEP
+            return t
+        b.tag.target = target
+    return b.tag, {}
+
+
+def app_op(tag, op, spec, geo):
+    """one step of the application program: documented use of the tag
+    object only (valid arguments, NDEF written only when writeable and
+    within capacity)"""
+    if op == "ndef":
+        n = tag.ndef
+        return None if n is None else len(n.octets)
+    if op == "changed":
+        n = tag.ndef
+        return None if n is None else n.has_changed
+    if op in ("write", "write-empty"):
+        n = tag.ndef
+        if n is None:
+            return "no-ndef"
+        if not n.is_writeable:
+            return "read-only"
+        n.octets = b"" if op == "write-empty" else \
+            tc.message(min(spec["msg"] + 3, n.capacity), 9)
+        return "written"
+    if op == "dump":
+        return len(tag.dump())
+    if op == "present":
+        return tag.is_present
+    if op in ("format", "format-wipe"):
+        kw = {"wipe": 0x5A} if op == "format-wipe" else {}
+        if type(tag) is nfc.tag.tt3.Type3Tag:
+            kw["version"] = 0x10
+        return app_quiet(tag.format, **kw)
+    if isinstance(tag, nfc.tag.tt2.Type2Tag):
+        if op == "read:in":
+            return len(tag.read(4))
+        if op == "read:out":
+            return len(tag.read(geo["out"]))
+        if op == "read:far":
+            return len(tag.read(250))
+        if op == "write:in":
+            return tag.write(7, bytearray(b"WXYZ"))
+        if op == "write:out":
+            return tag.write(geo["out"], bytearray(b"WXYZ"))
+    elif isinstance(tag, nfc.tag.tt1.Type1Tag):
+        if op == "read:all":
+            return len(tag.read_all())
+        if op == "read:id":
+            return len(tag.read_id())
+        if op == "read:in":
+            return tag.read_byte(20)
+        if op == "write:in":
+            return len(tag.write_byte(21, 0x77))
+        if op == "read:out":          # behind the memory (static: last byte)
+            return len(tag.read_block(200)) if geo["dyn"] else \
+                tag.read_byte(127)
+        if op == "write:out":
+            return tag.write_block(200, bytearray(b"ABCDEFGH")) \
+                if geo["dyn"] else len(tag.write_byte(127, 0x77))
+    elif isinstance(tag, nfc.tag.tt3.Type3Tag):
+        if op == "poll":
+            return len(tag.polling(0x12FC))
+        if op == "read:in":
+            return len(tag.read_from_ndef_service(1))
+        if op == "read:out":
+            return len(tag.read_from_ndef_service(geo["out"]))
+        if op == "write:in":
+            return tag.write_to_ndef_service(bytearray(range(16)), 2)
+        if op == "write:out":
+            return tag.write_to_ndef_service(bytearray(range(16)),
+                                             geo["out"])
+    elif isinstance(tag, nfc.tag.tt4.Type4Tag):
+        if op == "read:in":
+            return len(tag.send_apdu(0x00, 0xB0, 0x00, 0x00, mrl=8))
+        if op == "read:out":
+            return len(tag.send_apdu(0x00, 0xB0, 0x7F, 0x00, mrl=8))
+        if op == "write:in":
+            return len(tag.send_apdu(0x00, 0xD6, 0x00, 0x10, b"WXYZ"))
+        if op == "write:out":
+            return len(tag.send_apdu(0x00, 0xD6, 0x7F, 0x00, b"WXYZ"))
+    return "not-for-this-tag"
+
+
+class AppDevice(EnvDevice):
+    """EnvDevice with one tag and a field that follows a plan.  Counting
+    starts with arm() (the application program begins): every command sent to
+    the tag and every poll of the tag's technology is one event.
+
+    plan = {"trigger": ["event", n]        window starts at event n
+                     | ["nak", k, d]       d events after the k-th command
+                                           the tag refused (NAK, error
+                                           status, no answer)
+                     | ["poll", k, d]      d events after the k-th poll
+                                           (re-selection) began,
+            "mode": "leave"                the tag is out of the field: no
+                                           answer, polls find nothing
+                  | "timeout" | "transmission" | "protocol"
+                                           the driver reports that error
+                                           (commands and polls alike),
+            "span": n events, 0 = from then on,
+            "phase": "cmd" | "rsp"         error before / after the tag
+                                           executed the command}
+    A tag that was out of the field lost power: a Type A tag must be selected
+    again before it answers, a Type F tag answers its IDm at once."""
+
+    def __init__(self, air, name, sim, fam, trace):
+        EnvDevice.__init__(self, air, name, {"tag": None, "fault": None},
+                           trace)
+        self.tag = sim
+        self.fam = fam
+        self.disarm()
+
+    def disarm(self):
+        self.plan, self.armed = None, False
+        self.events = self.polls = self.refused = self.hits = 0
+        self.start = self.gone_from = self.prog_end = None
+        self.hit_at = []
+        self.gone_hit = None
+
+    def arm(self, plan):
+        self.disarm()
+        self.plan, self.armed = plan, True
+        if plan is not None and plan["trigger"][0] == "event":
+            self.start = plan["trigger"][1]
+
+    def program_done(self, linger):
+        if self.armed and self.prog_end is None:
+            self.prog_end = self.events
+            if linger is not None:
+                self.gone_from = self.events + linger
+
+    def _tag_here(self):
+        return True
+
+    def _event(self, kind):
+        if not self.armed:
+            return None
+        i = self.events
+        self.events += 1
+        p = self.plan
+        if kind == "poll":
+            if p is not None and self.start is None and \
+                    p["trigger"][0] == "poll" and \
+                    self.polls == p["trigger"][1]:
+                self.start = i + p["trigger"][2]
+            self.polls += 1
+        mode = None
+        if self.gone_from is not None and i >= self.gone_from:
+            mode = "leave"
+            if self.gone_hit is None:
+                self.gone_hit = i
+        elif p is not None and self.start is not None and i >= self.start \
+                and (p["span"] == 0 or i < self.start + p["span"]):
+            mode = p["mode"]
+            self.hits += 1
+            self.hit_at.append(i)
+        if mode == "leave":
+            self.tag.reset()                   # power lost
+            if self.tag.tech == "A":
+                self.tag_active = False
+        return mode
+
+    def _refusal(self, rsp):
+        if not self.armed:
+            return
+        r = None if rsp is None else bytes(rsp)
+        refused = r is None or \
+            (self.fam == "t2t" and len(r) == 1 and r[0] & 0xFA == 0) or \
+            (self.fam == "t3t" and len(r) > 10 and r[1] in (7, 9)
+             and r[10] != 0)
+        if refused:
+            p = self.plan
+            if p is not None and self.start is None and \
+                    p["trigger"][0] == "nak" and \
+                    self.refused == p["trigger"][1]:
+                self.start = self.events + p["trigger"][2]
+            self.refused += 1
+
+    def _poll(self, name, tech, target):
+        self._call(name)
+        if self.tag.tech != tech:
+            return None
+        mode = self._event("poll")
+        if mode == "leave":
+            return None
+        if mode is not None:
+            raise tagdev.ERR[mode]("sim: %s error while selecting" % mode)
+        t = self.tag.target(target)
+        if t is not None:
+            self.tag_active = True
+        return t
+
+    def _sense_tta(self, target):
+        if target.brty != "106A":
+            return simdev.SimDevice.sense_tta(self, target)
+        return self._poll("sense_tta", "A", target)
+
+    def _sense_ttf(self, target):
+        if target.brty not in ("212F", "424F"):
+            return simdev.SimDevice.sense_ttf(self, target)
+        return self._poll("sense_ttf", "F", target)
+
+    def _send_cmd_recv_rsp(self, target, data, timeout):
+        self._call("send_cmd_recv_rsp")
+        mode = self._event("cmd")
+        if mode == "leave":
+            raise nfc.clf.TimeoutError("sim: tag out of the field")
+        if not self.tag_active:
+            raise nfc.clf.TimeoutError("sim: tag not selected")
+        if mode is not None and self.plan["phase"] == "cmd":
+            raise tagdev.ERR[mode]("sim: %s (command lost)" % mode)
+        rsp = self.tag.command(bytes(data), timeout)
+        if mode is not None:
+            raise tagdev.ERR[mode]("sim: %s (response lost)" % mode)
+        self._refusal(rsp)
+        if rsp is None:
+            raise nfc.clf.TimeoutError("sim: no response")
+        return bytearray(rsp)
+
+
+def app_judge_case(case):
+    """the part of the case that judge() and build_options() look at"""
+    return {"rdwr": case["rdwr"], "llcp": None, "card": None,
+            "env": {"fault": None, "tag": case["tag"]["kind"], "tag_life": 0,
+                    "peer": None}}
+
+
+class _NoNT(object):
+    """judge() marks cases non-trivial by the rule of the connect leg; the
+    tagapp legs have a rule of their own"""
+
+    def __init__(self, ctx):
+        self.ctx = ctx
+
+    def __getattr__(self, name):
+        return getattr(self.ctx, name)
+
+    def nontrivial(self):
+        pass
+
+
+def play_tagapp(case):
+    """-> list of sessions (one per connect() call), each a dict with the
+    time line, the outcome of connect() and of the program steps"""
+    s = vsched.Sched([], seed=0, step_budget=400000)
+    vsched.activate(s)
+    spec = case["tag"]
+    sim, geo = app_sim(spec)
+    air = simdev.Air()
+    clf = nfc.clf.ContactlessFrontend()
+    dev = clf.device = AppDevice(air, "dut", sim, APP_FAM[spec["kind"]], [])
+    jcase = app_judge_case(case)
+    in_callback = bool(case["rdwr"]["connect"])
+    sessions = []
+    state = {}
+
+    def program(tag, sess, ops, plan):
+        if not dev.armed:
+            dev.arm(plan)
+        for op in ops:
+            try:
+                sess["steps"].append((op, "ok", app_op(tag, op, spec, geo)))
+            except nfc.tag.TagCommandError as e:
+                sess["steps"].append((op, "tce", e.errno))
+            except (vsched.Abort, vsched.StepBudget):
+                raise
+            except Exception as e:
+                # not a documented tag error: C16's subject, recorded only
+                sess["steps"].append((op, "other", type(e).__name__))
+        dev.program_done(case["linger"])
+
+    def dut():
+        for k in range(2 if case["again"] else 1):
+            sess = {"trace": [], "out": {}, "objects": {}, "tcalls": {"n": 0},
+                    "steps": [], "k": k}
+            sessions.append(sess)
+            dev.trace = trace = sess["trace"]
+            plan = case["plan"] if k == 0 else None
+            m = case["terminate_at"][k]
+
+            def terminate(sess=sess, trace=trace, m=m):
+                sess["tcalls"]["n"] += 1
+                r = sess["tcalls"]["n"] >= m
+                trace.append(("terminate", r, sess["tcalls"]["n"]))
+                return r
+            options = build_options(jcase, trace, sess["objects"])["rdwr"]
+            recorded = options["on-connect"]
+
+            def on_connect(tag, sess=sess, plan=plan, recorded=recorded):
+                r = recorded(tag)
+                if in_callback:
+                    program(tag, sess, case["prog"], plan)
+                return r
+            options["on-connect"] = on_connect
+            try:
+                sess["out"]["ret"] = clf.connect(rdwr=options,
+                                                 terminate=terminate)
+            except (vsched.Abort, vsched.StepBudget):
+                raise
+            except BaseException as e:
+                sess["out"]["exc"] = e
+            sess["out"]["done"] = True
+            sess["trace"] = list(trace)          # what connect() itself did
+            ret = sess["out"].get("ret")
+            if not in_callback and isinstance(ret, nfc.tag.Tag):
+                # on-connect declined: the application owns the tag now,
+                # works with it and does its own presence check
+                program(ret, sess, case["prog"] + ["present"] * 3, plan)
+            sess.update(hits=dev.hits, hit_at=list(dev.hit_at),
+                        prog_end=dev.prog_end, gone_hit=dev.gone_hit,
+                        events=dev.events, polls=dev.polls,
+                        refused=dev.refused)
+            if "exc" in sess["out"]:
+                break
+            dev.disarm()                 # the tag is (put back) in the field
+            dev.tag.reset()
+            dev.tag_active = False
+        state["done"] = True
+    try:
+        s.spawn(dut, "dut")
+        s.run_until(lambda: state.get("done"), 400.0)
+        state["blocked"] = [repr(t) for t in s.blocked()]
+    finally:
+        s.shutdown()
+        vsched.activate(None)
+    return sessions, state
+
+
+def run_tagapp(case, ctx):
+    sessions, state = play_tagapp(case)
+    kind = case["tag"]["kind"]
+    ctx.set_class("tagapp/" + kind)
+    ctx.label("tagapp:" + kind)
+    ctx.label("tagapp:program-%s" % (
+        "inside-on-connect" if case["rdwr"]["connect"] else
+        "after-connect-returned-the-tag"))
+    jcase = app_judge_case(case)
+    for sess in sessions:
+        done = sess["out"].get("done")
+        connected = [t for t in sess["trace"] if t[0] == "cb"
+                     and t[2] == "connect"]
+        steps = sess["steps"]
+        if sess["k"] == 0:
+            plan = case["plan"]
+            where = "no-fault-planned" if plan is None else \
+                "fault-not-reached" if not sess.get("hits") else \
+                "hit-during-program" if sess["prog_end"] is None or \
+                sess["hit_at"][0] < sess["prog_end"] else \
+                "hit-during-presence-loop"
+            ctx.label("tagapp:" + where)
+            if plan is not None and sess.get("hits"):
+                ctx.label("tagapp:%s:%s" % (plan["mode"], "for-good" if
+                                            plan["span"] == 0 else "passing"))
+            for op, how, val in steps:
+                ctx.label("tagapp:step:%s" % (
+                    how if how != "other" else "other:%s" % val))
+            if connected and steps and (sess.get("hits") or
+                                        sess.get("gone_hit") is not None):
+                ctx.nontrivial()
+        try:
+            judge(jcase, _NoNT(ctx), sess["trace"], sess["out"], done,
+                  state.get("blocked"), sess["tcalls"], sess["objects"])
+        except Violation as v:
+            v.detail = "connect() call %d on a %s, program %r %s, plan %r, " \
+                "steps %r, %d events / %d polls / %d refused: %s" % (
+                    sess["k"] + 1, kind, case["prog"],
+                    "in on-connect" if case["rdwr"]["connect"] else
+                    "after connect()", case["plan"] if sess["k"] == 0
+                    else None, [x[:2] for x in steps][:8],
+                    sess.get("events", -1), sess.get("polls", -1),
+                    sess.get("refused", -1), v.detail)
+            raise
+    if not state.get("done"):
+        raise Violation("connect-did-not-return", "blocked %r"
+                        % (state.get("blocked"),))
+    ctx.note({"steps": [list(x[:2]) for x in sessions[0]["steps"]][:8],
+              "events": sessions[0].get("events"),
+              "hit_at": sessions[0].get("hit_at", [])[:4],
+              "prog_end": sessions[0].get("prog_end"),
+              "ret": [repr(x["out"].get("ret"))[:40] for x in sessions]})
+
+
+APP_RDWR = {"startup": "default", "discover": True, "connect": True,
+            "release": True, "targets": None, "iterations": 1,
+            "interval": None, "beep": None}
+
+
+def enum_tagapp(tier, seed):
+    """every event position of every single-operation program"""
+    quick = tier == "quick"
+    modes = [("leave", 0, "rsp"), ("leave", 1, "rsp"), ("timeout", 1, "rsp")]
+    if not quick:
+        modes += [("transmission", 2, "cmd"), ("protocol", 1, "rsp"),
+                  ("leave", 3, "rsp")]
+    count = 0
+    for spec in APP_FIXED:
+        for op in sorted(set(APP_OPS[APP_FAM[spec["kind"]]])):
+            progs = [[op]] if quick else [[op], [op, "ndef"]]
+            for prog in progs:
+                base = {"tag": spec, "rdwr": APP_RDWR, "prog": prog,
+                        "plan": None, "linger": None,
+                        "terminate_at": [4, 3], "again": False}
+                sessions, _ = play_tagapp(base)
+                n = sessions[0].get("prog_end") or 0
+                for at in range(n + 2):
+                    for mode, span, phase in modes:
+                        count += 1
+                        c = dict(base, plan={"trigger": ["event", at],
+                                             "mode": mode, "span": span,
+                                             "phase": phase},
+                                 terminate_at=[6, 3])
+                        if (count + seed) % 5 == 0:
+                            # the application declines and keeps the tag
+                            c["rdwr"] = dict(APP_RDWR, connect=False)
+                            c["again"] = True
+                        elif (count + seed) % 5 == 1:
+                            c["rdwr"] = dict(APP_RDWR, release="x",
+                                             discover="default")
+                            c["again"] = True
+                        yield c
+
+
+def app_tag_spec():
+    t2 = st.fixed_dictionaries({
+        "kind": st.sampled_from(["t2t", "t2t", "t2t-ul"]),
+        "size": st.integers(6, 20), "extra": st.sampled_from([0, 0, 4, 8]),
+        "nulls": st.sampled_from([0, 0, 1, 3]),
+        "cut": st.sampled_from([0, 0, 0, 8, 16, 64]),
+        "msg": st.integers(0, 45)})
+    t1 = st.fixed_dictionaries({
+        "kind": st.sampled_from(["t1t", "t1t", "t1t-dyn"]),
+        "hr1": st.sampled_from([0x00, 0x48]), "msg": st.integers(0, 45)})
+    t3 = st.fixed_dictionaries({
+        "kind": st.just("t3t"), "nmaxb": st.integers(3, 9),
+        "extra": st.integers(0, 2), "msg": st.integers(0, 45)})
+    t4 = st.fixed_dictionaries({
+        "kind": st.sampled_from(["t4a", "t4a+dep"]),
+        "fsize": st.integers(50, 130), "fsci": st.sampled_from([2, 5, 8]),
+        "chunk": st.sampled_from([None, None, 11, 30]),
+        "msg": st.integers(0, 45)})
+    return st.one_of(t2, t2, t2, t1, t1, t3, t3, t4, t4)
+
+
+@st.composite
+def tagapp_case(draw):
+    spec = draw(app_tag_spec())
+    tech = ["212F"] if spec["kind"] == "t3t" else ["106A"]
+    ops = APP_OPS[APP_FAM[spec["kind"]]]
+    rdwr = {
+        "startup": draw(st.sampled_from(["ok", "default"])),
+        "discover": draw(st.sampled_from([True, True, "default", 1])),
+        # a true value: the program runs inside the callback and connect()
+        # does the presence check; a false value: connect() returns the tag
+        "connect": draw(st.sampled_from(TRUTHY * 3 + FALSY)),
+        "release": draw(st.sampled_from([True] * 3 + ["x", 1, "default"]
+                                        + FALSY)),
+        "targets": draw(st.sampled_from([None, None, tech, tech + ["106B"],
+                                         ["106A", "212F"],
+                                         ["212F", "106A"]])),
+        "iterations": draw(st.sampled_from([1, 2])),
+        "interval": None,
+        "beep": draw(st.sampled_from([None, None, True, False]))}
+    prog = draw(st.lists(st.sampled_from(ops), min_size=1, max_size=5))
+    kinds = ["event", "event", "nak", "poll"] \
+        if APP_FAM[spec["kind"]] == "t2t" else ["event"] * 4 + ["nak"]
+    which = draw(st.sampled_from(kinds))
+    if which == "event":
+        # only Type 2 tag code selects the tag again, elsewhere polls and
+        # refusals are rare: mostly absolute positions there
+        trigger = st.tuples(st.just("event"), st.one_of(
+            st.integers(0, 6), st.integers(0, 12), st.integers(0, 40)))
+    elif which == "nak":
+        trigger = st.tuples(
+            st.just("nak"), st.sampled_from([0, 0, 0, 1, 1, 2, 3]),
+            st.sampled_from([0, 0, 0, 1, 2]))
+    else:
+        trigger = st.tuples(st.just("poll"), st.sampled_from([0, 0, 1, 2]),
+                            st.sampled_from([0, 0, 1]))
+    plan = None
+    if draw(st.integers(0, 6)) < 6:         # about one in seven without
+        plan = draw(st.fixed_dictionaries({
+            "trigger": trigger,
+            "mode": st.sampled_from(["leave"] * 3 + [
+                "timeout", "transmission", "protocol"]),
+            "span": st.sampled_from([0, 0, 0, 1, 1, 2, 3, 6]),
+            "phase": st.sampled_from(["cmd", "rsp"])}))
+    return {"tag": spec, "rdwr": rdwr, "prog": prog, "plan": plan,
+            # events after the program until the tag is taken away for good
+            "linger": draw(st.sampled_from([0, 1, 2, 5, 9, None])),
+            "terminate_at": [draw(st.integers(2, 16)),
+                             draw(st.integers(1, 8))],
+            "again": draw(st.sampled_from([False, False, True]))
+            or not rdwr["connect"]}
+
+
 LEGS = [
     Leg("tagtypes", run=run_connect, enum=enum_tagtypes, exhaustive=True,
         rule="Type 1, Type 2, Type 3, Type 4A (SEL_RES 20h) and Type 4A + "
@@ -1063,6 +1667,54 @@ LEGS = [
              "nothing and returns within 40 s of virtual time.  non-trivial "
              "= an on-release returned a false value and connect() polled "
              "again, or >= 2 activations happened in the one call."),
+    Leg("tagapp_enum", run=run_tagapp, enum=enum_tagapp, exhaustive=True,
+        shards_quick=12, shards_thorough=16,
+        rule="an application that uses the tag while connect() holds it: 9 "
+             "fixed tags (Type 2 generic small / with less memory than "
+             "declared / with NXP UID, Type 1 static, Topaz, Type 1 dynamic, "
+             "Type 3, Type 4A, Type 4A + NFC-DEP) x every operation of the "
+             "family (ndef read, has_changed, ndef write, empty write, "
+             "dump(), is_present, format, format with wipe, raw read / write "
+             "inside and behind the memory, polling, RALL, RID) run as a "
+             "one-step program inside on-connect x EVERY command / poll "
+             "position of that program and the first two of the presence "
+             "loop x {tag leaves for good, tag is out of the field for one "
+             "event, one timeout with the response lost} (thorough: also "
+             "transmission / protocol errors, 3-event absence, two-step "
+             "programs); every fifth case the on-connect callback declines "
+             "and the program runs after connect() returned the tag, "
+             "followed by a second connect() on the same frontend.  Oracle "
+             "of the connect leg on every connect() call: callback order, "
+             "on-release exactly once per true on-connect with the same "
+             "object, documented return value, connect() raises nothing, "
+             "prompt end after terminate().  Exceptions of the tag "
+             "operations are caught by the program (TagCommandError = "
+             "documented; anything else is only recorded, that is C16's "
+             "subject).  non-trivial = on-connect got the tag, the program "
+             "ran and the planned absence / error was reached."),
+    Leg("tagapp", run=run_tagapp, gen=lambda tier: tagapp_case(), quick=640,
+        thorough=12000, shards_quick=8, shards_thorough=16, nt_floor=0.2,
+        rule="generated tags of every type the C18 scenes support (Type 2 "
+             "with 64-190 byte memory, optionally shorter than declared or "
+             "with an NXP UID; Type 1 static / Topaz / dynamic; Type 3 with "
+             "3-9 blocks; Type 4A / 4A + NFC-DEP with 50-130 byte file) x "
+             "rdwr options (on-connect true values / false values, "
+             "on-release true / other / false values / default, on-discover, "
+             "target lists, iterations, beep) x a program of 1-5 tag "
+             "operations (as in tagapp_enum) run inside on-connect, or after "
+             "connect() returned the tag when on-connect declined (then "
+             "followed by the application's own presence checks and a second "
+             "connect() on the same frontend) x field plan: none, or "
+             "starting at an absolute event, 0-2 events after the k-th "
+             "refused command (NAK / error status / no answer), or 0-1 "
+             "events after the k-th re-selection poll: the tag is out of the "
+             "field or the driver reports timeout / transmission / protocol "
+             "errors (command or response lost) for 1-6 events or from then "
+             "on; afterwards the tag stays 0-9 more events or until "
+             "terminate() (true at its 2nd-16th call).  Oracle as in "
+             "tagapp_enum.  non-trivial = on-connect got the tag, the "
+             "program ran and the planned absence / error or the final "
+             "removal was reached."),
     Leg("sense", run=run_sense, gen=lambda tier: sense_case(), quick=1500,
         thorough=40000, shards_quick=3, shards_thorough=16, nt_floor=0.2,
         rule="1-5 targets out of supported / unsupported bit rates / invalid "
